@@ -139,6 +139,32 @@ fn check_doc(ctx: &mut Ctx, rs: &RefSpec, doc: &Vec<Node>) {
                 }
             }
         }
+        // (g) the Start/children/End presentation with one call that the writer rejects put in at every position: the
+        // rejected call is not part of the document, so the bytes are those of the plain presentation
+        {
+            let menu = [
+                WCall::Tag(NItem::End(ID_P), WOpt::Default),
+                WCall::Tag(NItem::End(ID_K), WOpt::Width(2)),
+                WCall::Tag(NItem::Leaf(ID_S, crate::refmodel::Val::S("q".repeat(127))), WOpt::Width(1)),
+            ];
+            'outer: for pos in 0..=base_calls.len() {
+                for f in &menu {
+                    let mut calls = base_calls.clone();
+                    calls.insert(pos, f.clone());
+                    let r = run_writer::<V>(&calls, Dest::default());
+                    ctx.transitions += calls.len() as u64 + 1;
+                    if r.results[pos].is_ok() {
+                        continue; // accepted here: not a rejected call
+                    }
+                    ctx.count("presentations_with_a_rejected_call", 1);
+                    let others_ok = r.results.iter().enumerate().all(|(i, x)| i == pos || x.is_ok());
+                    if !others_ok || r.fin.is_err() || r.out != base.out {
+                        ctx.violation("rejected-call-in-between/output-differs", &d, &format!("{} (rejected: {:?}) inserted before call #{}: results {:?} fin {:?} out {} vs {}", f.short(), r.results[pos], pos, r.results.iter().enumerate().find(|(i, x)| *i != pos && x.is_err()), r.fin, hex(&r.out), hex(&base.out)));
+                        break 'outer;
+                    }
+                }
+            }
+        }
         // (iv) short-write schedules of the destination
         let total = base.out.len();
         let mut policies: Vec<Vec<usize>> = Vec::new();
@@ -188,10 +214,10 @@ pub fn run(ctx: &mut Ctx) {
         extras: true,
         all_widths: true,
     };
-    ctx.meta("rule", "cases: (tree, per-element options); trees = forests over V up to the node bound + deep spines + size-boundary documents (payload / master content of 124..128 and 16379..16384 bytes); options = every known/unknown choice of masters x deviations among size width 1..8 per master/leaf and payload class. For each case the real writer is driven with (a) Start/children/End, (b) EVERY way of collapsing masters into Full items, (c) the deprecated unknown-size call, (c2) Ends carrying the option of their Start, (c3) the trailing Ends left to into_inner(), (d) destinations that accept only a few bytes per write (all compositions for outputs <= 10 bytes, else <= 3 deviations, incl. Interrupted). Oracle: (b),(c),(c2),(c3),(d) byte-identical to (a); (a) walked with RefCodec guided by the tree: ids, payloads, order, size values == actual content lengths, requested width exact, unknown => all-ones, never the reserved all-ones for a known size; a width that cannot hold the size must be rejected with TagSizeError. Non-trivial: presentations whose call count differs from (a).");
+    ctx.meta("rule", "cases: (tree, per-element options); trees = forests over V up to the node bound + deep spines + size-boundary documents (payload / master content of 124..128 and 16379..16384 bytes); options = every known/unknown choice of masters x deviations among size width 1..8 per master/leaf and payload class. For each case the real writer is driven with (a) Start/children/End, (b) EVERY way of collapsing masters into Full items, (c) the deprecated unknown-size call, (c2) Ends carrying the option of their Start, (c3) the trailing Ends left to into_inner(), (c4) one call that the writer rejects (End of a master that is not open, a 127-byte string with a 1-byte size field) put in at every position, (d) destinations that accept only a few bytes per write (all compositions for outputs <= 10 bytes, else <= 3 deviations, incl. Interrupted). Oracle: (b),(c),(c2),(c3),(c4),(d) byte-identical to (a); (a) walked with RefCodec guided by the tree: ids, payloads, order, size values == actual content lengths, requested width exact, unknown => all-ones, never the reserved all-ones for a known size; a width that cannot hold the size must be rejected with TagSizeError. Non-trivial: presentations whose call count differs from (a).");
     ctx.meta("bounds", &format!("forests <= {} elements, <= {} option deviations, all Full antichains", p.max_nodes, p.devs));
     ctx.meta("assumptions", "default (unrequested) size widths are not constrained beyond well-formedness || whether an explicit master width can hold its content is judged with minimal inner widths");
-    for c in ["closed_by_into_inner", "ends_carrying_options", "full_presentations", "deprecated_unknown_presentations", "short_write_schedules", "explicit_width_too_small_rejected", "size_boundary_docs"] {
+    for c in ["closed_by_into_inner", "ends_carrying_options", "full_presentations", "deprecated_unknown_presentations", "short_write_schedules", "explicit_width_too_small_rejected", "size_boundary_docs", "presentations_with_a_rejected_call"] {
         ctx.expect_nonzero(c);
     }
     docs::for_each_doc(ctx, &rs, &p, &mut |ctx, doc| {
